@@ -95,6 +95,13 @@ func plans(r *ev.Run) []plan {
 		return ps
 	}
 	add(true, "core", 5, 2, true, roleP, roleN)         // the real walstore on crashfs
+	for _, role := range []int{roleP, roleN} { // the real walstore whose next prune record is the 256th (file cleanup runs at the commit of h0)
+		l := 5
+		if role == roleN {
+			l = 6
+		}
+		ps = append(ps, plan{config{Role: role, App: appDet, Real: true, Alpha: "core", L: l, Redel: true, Pre255: true}, 2})
+	}
 	add(false, "core", 6, 3, true, roleP, roleN, roleM) // reference WAL, one more input
 	add(false, "core", 7, 3, true, roleP)               // proposer role: length 7 over the same alphabet
 	add(false, "mini", 7, 3, false, roleP, roleN)       // length 7 over the smallest alphabet that still commits
